@@ -2,6 +2,7 @@
 import numpy as np
 
 from simlab import session, chain
+from simlab import chain_io  # noqa: F401  (registers the persistence ops)
 
 
 BASE = {
@@ -9,6 +10,7 @@ BASE = {
     "add": 3.0, "scale": 1.5, "unary": 1.5, "apply": 2.5,
     "canonicalise": 1.2, "ensure": 1.2, "move_qnidx": 1.5, "compress_lossless": 1.0, "normalize": 0.5,
     "truncate": 0.8, "observe": 2.0, "drop": 0.3, "alias_mutate": 0.0, "spill": 0.0, "swap": 0.0, "observe2": 0.3,
+    "dump_load": 0.0, "spill_session": 0.0, "spill_gc": 0.0,
 }
 
 TWEAKS = {
@@ -19,6 +21,8 @@ TWEAKS = {
     "C04": {"canonicalise": 4.0, "ensure": 3.0, "compress_lossless": 4.0, "move_qnidx": 2.0, "truncate": 0.2, "observe": 0.5},
     "C05": {"truncate": 6.0, "add": 3.0, "apply": 3.0, "observe": 0.3},
     "C06": {"truncate": 1.5},
+    "C14": {"dump_load": 7.0, "spill_session": 4.0, "spill_gc": 2.5, "drop": 0.6, "observe": 0.5, "truncate": 0.5, "mpdm_from_mps": 1.5, "unary": 2.0, "scale": 2.0,
+            "canonicalise": 2.0, "ensure": 1.5, "move_qnidx": 2.0},
     "C13": {"alias_mutate": 1.5, "drop": 1.0, "spill": 0.8, "observe": 3.0, "truncate": 1.0},
 }
 
